@@ -141,10 +141,10 @@ mutual
       | _, _ => none
     | .list [.atom "units", .atom m] => (modeOf m).map Stmt.units
     | .list [.atom "actall", .atom k] => (actKind k).map Stmt.actAll
-    | .list [.atom "setdefault"] => some .setDefault
+    | .list [.atom "setdefault"] => some (.setDefault true)
     | .list [.atom "action", .atom k, .list ops] =>
       match actKind k, ops.mapM toOperand with
-      | some k, some os => some (.action k (Operands.ofList os))
+      | some k, some os => some (.action k true (Operands.ofList os))
       | _, _ => none
     | .list [.atom "get", n] => (toRv n).map Stmt.get
     | .list [.atom "wait"] => some .wait
@@ -200,7 +200,8 @@ end
 
 def toProgram (s : String) : Option Block :=
   match parseSexp s with
-  | some (.list stmts) => (stmts.mapM toStmt).map Block.ofList
+  -- the `WAIT` flags of the commands are set from their position (`Block.lexical`)
+  | some (.list stmts) => (stmts.mapM toStmt).map fun l => Block.lexical false (Block.ofList l)
   | _ => none
 
 /-! ### instructions back to the wire form of `harness/vmwire.py: enc_instr_fixed` -/
